@@ -632,3 +632,76 @@ def r7_presence(ctx, cls, rule="R7"):
     for k in sorted(numeric):
         ctx.ok(rule, "field '%s' is never presence-tested by truthiness" % k, "", numeric[k])
     return len(numeric)
+
+
+def r8_order(ctx, cls, gr, rule="R8"):
+    """Order of alternatives. pyparsing's `^` takes the longest match and the FIRST listed among equally long ones; `|`
+    takes the first alternative that matches at all. For every pair of alternatives of one alternation for which the
+    envelopes show that the order can decide the result (a common word / a word of one that is a prefix of a word of
+    the other), the order in the code must be the reviewed one of spec/grammar_order.json."""
+    import json
+    from .. import automata
+    from ..report import VERIF
+    ctx.rule(rule, "order-sensitive alternatives of the grammar are listed in the reviewed order")
+    table = json.loads((VERIF / "spec" / "grammar_order.json").read_text()).get(cls, [])
+
+    def split(c):
+        name, _, rest = c.partition("<")
+        return name, set(rest.rstrip(">").split())
+
+    def sim(a, b):
+        return len(a & b) / float(len(a | b)) if (a | b) else 1.0
+
+    def fam(kind):
+        return "tie" if kind == "tie" else "shadow"
+    rel = automata.order_relations(gr)
+    n = 0
+    done = set()
+    for (kind, a, b), (active, witness, var) in sorted(rel.items()):
+        an, ap = split(a)
+        bn, bp = split(b)
+        key = (fam(kind), a, b)
+        if key in done:
+            continue
+        done.add(key)
+        n += 1
+        best = None
+        cands = [e for e in table if fam(e["kind"]) == fam(kind)
+                 and {split(e["first"])[0], split(e["second"])[0]} == {an, bn}]
+        if an != bn and len({(split(e["first"])[0], split(e["second"])[0]) for e in cands}) == 1:
+            # the result names identify the pair
+            def closeness(e):
+                fp, sp = split(e["first"])[1], split(e["second"])[1]
+                return sim(fp, ap) + sim(sp, bp) if split(e["first"])[0] == an else sim(fp, bp) + sim(sp, ap)
+            e = max(cands, key=closeness)
+            best = (2.0, "same" if split(e["first"])[0] == an else "flipped", e)
+        else:
+            # alternatives sharing a result name (hexadecimal / decimal `value`, the two `identifier` forms): the probe
+            # strings their envelopes accept tell them apart
+            for e in cands:
+                fn, fp = split(e["first"])
+                sn, sp = split(e["second"])
+                same = sim(fp, ap) + sim(sp, bp) if (fn, sn) == (an, bn) else -1
+                flipped = sim(fp, bp) + sim(sp, ap) if (fn, sn) == (bn, an) else -1
+                score, orient = max((same, "same"), (flipped, "flipped"))
+                if score > 1.2 and abs(same - flipped) >= 0.3 and (best is None or score > best[0]):
+                    best = (score, orient, e)
+        where = gr.func.where(gr.env[var].src) if getattr(gr.env.get(var), "src", None) is not None else gr.func.where()
+        label = "%s: %s before %s" % (var, an, bn)
+        if best is None:
+            ctx.unknown(rule, label, where, "the alternatives %s and %s of `%s` are order-sensitive (%s: %r) and this pair is not in "
+                        "the reviewed table" % (an, bn, var, kind, witness))
+            continue
+        _, orient, e = best
+        if orient == "same":
+            ctx.ok(rule, label + " (%s)" % fam(kind), where, e.get("reason", ""))
+            continue
+        fn = split(e["first"])[0]
+        sn = split(e["second"])[0]
+        detail = ("in `%s` the alternative %s is now listed before %s; the reviewed order is %s first: %s. With `%s` the first listed "
+                  "alternative wins on inputs like %r (reviewed witness %r), so such operands are now returned as %s instead of %s"
+                  % (var, an, bn, fn, e.get("reason", ""), "^" if fam(kind) == "tie" else "|", witness, e.get("witness"), an, bn))
+        ctx.judge(False, bool(e.get("in_property")), rule, label, where, detail, gr.func.qname, "order %s / %s" % (fn, sn))
+    ctx.floor(rule, "order-sensitive pairs of alternatives", n, 8)
+    ctx.extra["order_sensitive_pairs"] = n
+    return n
